@@ -8,8 +8,9 @@ from tracecheck import TraceCheck, parse_behaviours
 PLAIN = [0] * 8
 RED = [2, 0, 0, 0, 0, 0, 0, 0]
 ONBLUE = [0, 5, 2, 0, 0, 0, 0, 0]
-SEED = [[[[97, 98], RED]], [[[99], PLAIN], [[32, 100], ONBLUE]], [[[], RED], [[101, 10, 102], PLAIN]]]
-STRPOOL = ["", "x", ", "]
+SEED = [[[[97, 98], RED]], [[[99], PLAIN], [[32, 100], ONBLUE]], [[[], RED], [[101, 10, 102], PLAIN]],
+        [[[65317, 103], ONBLUE], [[104, 769], PLAIN]]]
+STRPOOL = ["", "x", ", ", "\uff25"]
 ATTMAPS = [{"fg": 32}, {"bg": 41, "bold": True}, {"bold": False, "underline": True}]
 MODELLED = {"add", "addstr", "raddstr", "mul", "slice", "splice", "insert", "append", "join", "withatts", "removeatts",
             "copy", "rewrap"}
@@ -52,9 +53,9 @@ class C13(TraceCheck):
         hists = []
         stats = {"states": 0, "transitions": 0}
         # breadth-first: every program of depth 2 (quick) over the exhaustive action set
-        cfg = ("SPECIFICATION Spec\nCONSTANT MaxSteps = 2\nCONSTANT MaxPool = 12\nCONSTANT Emit = TRUE\nINVARIANT EmitProgram\n"
-               "CHECK_DEADLOCK FALSE\n")
-        r = common.run_tlc("Pool", cfg, wd / "bfs", workers=1, timeout=600)
+        cfg = ("SPECIFICATION Spec\nCONSTANT MaxSteps = %d\nCONSTANT MaxPool = 12\nCONSTANT Emit = TRUE\nINVARIANT EmitProgram\n"
+               "CHECK_DEADLOCK FALSE\n" % (1 if tier == "quick" else 2))
+        r = common.run_tlc("Pool", cfg, wd / "bfs", workers=1, timeout=900)
         hists += parse_behaviours(r["out"])
         stats["states"] += r["distinct"]
         stats["transitions"] += r["generated"]
@@ -68,8 +69,8 @@ class C13(TraceCheck):
         stats["transitions"] += r["generated"]
         if tier == "quick" and len(hists) > 4000:
             rng = common.rng("C13-sub")
-            bfs = [h for h in hists if len(h) == 2]
-            hists = rng.sample(bfs, min(len(bfs), 1500)) + [h for h in hists if len(h) != 2]
+            bfs = [h for h in hists if len(h) <= 2]
+            hists = rng.sample(bfs, min(len(bfs), 1500)) + [h for h in hists if len(h) > 2]
         return hists, stats
 
     def histories(self, tier, rng):
@@ -88,6 +89,15 @@ class C13(TraceCheck):
             fa, fb = pool[a], pool[b]
             res = None
             side = []
+            rec["warmed"] = int((len(ev) + a) % 2 == 0)
+            if rec["warmed"]:
+                # fill the operands' caches before the operation on every other step
+                for x in (fa, fb):
+                    str(x), len(x), x.s
+                    try:
+                        x.width
+                    except Exception:  # noqa
+                        pass
             try:
                 if op == "add":
                     res = fa + fb
@@ -135,6 +145,8 @@ class C13(TraceCheck):
                     side = [fa.strip()]
                 elif op == "linesplit":
                     side = linesplit(fa, 2 + n % 4)
+                elif op == "setitem":
+                    side = [fa.setitem(min(n, max(0, len(fa) - 1)), STRPOOL[m - 1] if 1 <= m <= 4 else "z")]
                 elif op == "observe":
                     rec["obs"] = views(fa)
                     rec["fresh"] = fresh_views(fa)
@@ -158,6 +170,9 @@ class C13(TraceCheck):
                         rec["raised"] = 1
             except Exception as x:  # noqa
                 rec["exc"] = enc.exc_name(x)
+            news = ([res] if res is not None else []) + list(side)
+            rec["robs"] = [views(x) for x in news]
+            rec["rfresh"] = [fresh_views(x) for x in news]
             if res is not None:
                 rec["res"] = enc.enc_fmtstr(res)
                 if op in MODELLED and len(pool) < MAXPOOL:
